@@ -23,3 +23,9 @@ Definition pipeline_check (d : device) (ids : list nat) (c0 : circ) (ps : list p
 
 Definition restrict_check (d : device) (qs : list nat) : option (list nat * list (nat * nat)) :=
   option_map (fun r => (dnodes r, dedges r)) (restrict d qs).
+
+(* StarConnectivityPlacer: concrete model against the wire names the implementation produced *)
+Definition star_placer_check (mid : nat) (c : circ) (real : list nat) : bool :=
+  match star_placer mid c with Some w => list_eqb w real | None => false end.
+Definition restrict_raises (d : device) (qs : list nat) : bool :=
+  match restrict d qs with None => true | Some _ => false end.
